@@ -24,13 +24,13 @@ CLAIMED = {
         text="Static rules: EEXIST guard and single attach/detach sites of the thread-specific slot, guard table of the 13 m_ctx_* entry points "
              "(-EPIPE/NULL before any effect), typestate 'no context lookup after detach' over the call graph, teardown order pass→detach→unref on every "
              "successful path with a callback that cannot abort the pass, no re-entrant release and no registration during the pass (teardown marker), IDLE guard, agreement of the two "
-             "auto-release sites, finalize gate, interprocedural must-analysis that pthread_once precedes every use of the key.",
+             "auto-release sites, release decision not taken before a call that can run a user callback, finalize gate, interprocedural must-analysis that pthread_once precedes every use of the key.",
         tech="typestate + must-pass dataflow over CFG and call graph, sibling comparison, guard tables",
         ref="DESIGN.md §4 C07"),
     "C11": dict(
         text="Structural clauses of the ordered set decided statically: the default comparator does not narrow a pointer difference; in "
              "remove_node the destructor receives the payload of the node that is freed and payloads moved between nodes are swapped, never "
-             "duplicated; the three traversals have the documented visiting order and stop on a non-zero result; -EEXIST iff the search ended on "
+             "duplicated; the node is unlinked on every path before its destructor runs; the three traversals have the documented visiting order and stop on a non-zero result; -EEXIST iff the search ended on "
              "a node; node allocation/free pair with len++/len-- on every path; the destructor is reachable exactly from the removing operations; iterator remove/get refuse after a removal; no full-width difference in the default comparator. "
              "Sortedness for all insertion orders and iterator survival are not decided (shape dependent).",
         tech="AST/CFG shape rules with copy propagation, implicit-cast (narrowing) inspection, path enumeration, who-calls over resolved function pointers",
@@ -45,7 +45,7 @@ CLAIMED = {
         ref="DESIGN.md §4 C12"),
     "C05": dict(
         text="Structural clauses of the map decided statically: every key duplicated by the map is stored into an entry or released on every "
-             "path (ownership followed into the callee); a replaced/cleared value is destroyed first exactly when a destructor is set, keys are "
+             "path (ownership followed into the callee) and the key handed to a put is released only where the map is known not to duplicate keys; a replaced/cleared value is destroyed first exactly when a destructor is set, keys are "
              "released exactly when owned, the destructor is reachable only from put-update and clear; whole-entry memcpy is a move; key stores "
              "pair with length++/--; table_size only takes power-of-two values and matches the allocation; growth precedes the slot search and "
              "probe loops are bounded and the back-shift decision involves the table size; a no-update map refuses with -EPERM without effect; the destructor never runs for a value that stays stored; iterator operations refuse after a removal. Probing/back-shift correctness for colliding or wrapping "
@@ -70,7 +70,7 @@ CLAIMED = {
         text="Lock discipline of the thread pool decided statically: lock/unlock pairing on every path of every function (failed lock modelled), "
              "lockset per thread role (worker / submitters / freeing thread / constructor) for the fields declared lock protected, condition "
              "variable used in a predicate loop with signal/broadcast under the lock, the worker's hand-off shape (dequeue under lock, never when "
-             "WAITCURR or empty, one unlocked call fn(arg), then free; fn/arg stored once from the parameters; shutdown mode re-tested after waking; lazy growth adds one thread below max_threads), join dominating the 'no active "
+             "WAITCURR or empty, one unlocked call fn(arg), then free; fn/arg stored once from the parameters; shutdown mode re-tested after waking; lazy growth adds one thread below max_threads; no mutable static storage shared between pools), join dominating the 'no active "
              "threads' store and reverse-order teardown. These are the necessary conditions for race/deadlock freedom; schedules are not explored "
              "(deadlock freedom, lost wake-ups, liveness of free are not decided). Known finding K5 (detached pools are not awaited) is reported.",
         tech="lockset/typestate dataflow on the CFG with a thread-role table, loop-fragment path enumeration, dominance",
